@@ -303,17 +303,19 @@ namespace occa {
           return NULL;
         }
         exprNode *initInParen = initValue->wrapInParentheses();
+        exprNode *checkInParen = checkValue->wrapInParentheses();
         
         //If incrementing, assume loop bound is large than initial value
         //If decrementing: assume initial value is larger than loop bound
-        exprNode *smaller = (positiveUpdate) ? initInParen : checkValue;
-        exprNode *larger  = (positiveUpdate) ? checkValue : initInParen;
+        exprNode *smaller = (positiveUpdate) ? initInParen : checkInParen;
+        exprNode *larger  = (positiveUpdate) ? checkInParen : initInParen;
         exprNode *count = (new binaryOpNode(iterator->source,
                            op::sub,
                            *larger,
                            *smaller)
         );  
         delete initInParen;
+        delete checkInParen;
 
         if (checkIsInclusive) {
           primitiveNode inc(iterator->source, 1);
